@@ -63,8 +63,10 @@ __CPROVER_ensures(__CPROVER_return_value != mtbl_res_success ==> (w->m.count_ent
 __CPROVER_ensures(__CPROVER_return_value == mtbl_res_success ==> (w->m.count_entries == __CPROVER_old(w->m.count_entries) + 1 && w->m.bytes_keys == __CPROVER_old(w->m.bytes_keys) + len_key && w->m.bytes_values == __CPROVER_old(w->m.bytes_values) + len_val))
 __CPROVER_ensures(__CPROVER_return_value == mtbl_res_success ==> (vg_bba_calls == 1 && vg_bba_b == w->data && vg_bba_key == key && vg_bba_lk == len_key && vg_bba_val == val && vg_bba_lv == len_val))
 __CPROVER_ensures(__CPROVER_return_value == mtbl_res_success ==> (vg_reset_calls == 1 && vg_append_calls == 1 && vg_app_src == key && vg_app_n == len_key && w->last_key->_n == len_key))
-/* block cut: exactly when the estimate plus the 15-byte allowance reaches the block size; separator first, flush second, the new entry last */
-__CPROVER_ensures(__CPROVER_return_value == mtbl_res_success ==> (vg_flush_calls == ((vg_est + 15 + len_key + len_val >= w->opt.block_size) ? 1 : 0) && vg_sep_calls == vg_flush_calls))
+/* block cut: only when the estimate plus the 15-byte allowance reaches the block size (the other half of the rule, "no multi-entry block
+ * exceeds the block size", needs the builder's contract and is an obligation of wr_add_step); separator first, flush second, the new entry last */
+__CPROVER_ensures(__CPROVER_return_value == mtbl_res_success ==> (vg_flush_calls <= 1 && vg_sep_calls == vg_flush_calls))
+__CPROVER_ensures((__CPROVER_return_value == mtbl_res_success && vg_flush_calls == 1) ==> (vg_est + 15 + len_key + len_val >= w->opt.block_size))
 __CPROVER_ensures((__CPROVER_return_value == mtbl_res_success && vg_flush_calls == 1) ==> (vg_sep_seq < vg_flush_seq && vg_flush_seq < vg_bba_seq))
 ;
 void h_writer_add_dfcc(void)
